@@ -11,6 +11,7 @@ C16/Source.v proves that these expressions are the ones the hand-written model C
 """
 import ast
 import os
+import re
 
 from . import pyexpr as P
 
@@ -134,6 +135,70 @@ def first_index(sub):
     return s
 
 
+
+def blit(text):
+    return '[' + '; '.join('%d' % c for c in text.encode('ascii')) + ']'
+
+
+def format_calls(fn):
+    """all  "literal".format(...)  calls in a function -> list of literal strings (source order)"""
+    out = []
+    for n in ast.walk(fn):
+        if isinstance(n, ast.Call) and isinstance(n.func, ast.Attribute) and n.func.attr == 'format' \
+                and isinstance(n.func.value, ast.Constant) and isinstance(n.func.value.value, str):
+            out.append((n.lineno, n.col_offset, n.func.value.value))
+    return [t for _, _, t in sorted(out)]
+
+
+def name_parts(fmts, stem):
+    """'spPlate-{0}.fits' -> ('spPlate-', '.fits'); all occurrences must agree"""
+    found = set(f for f in fmts if f.startswith(stem) and '{0}' in f)
+    if len(found) != 1:
+        raise P.Unrecognised('file name format %s: %s' % (stem, sorted(found)))
+    pre, suf = list(found)[0].split('{0}')
+    return pre, suf
+
+
+def nfiber_constants(fn):
+    """nfiber[mjd < T] = N  and  (nfiber == N).all()"""
+    t = nn = None
+    for n in ast.walk(fn):
+        if isinstance(n, ast.Assign) and len(n.targets) == 1 and isinstance(n.targets[0], ast.Subscript) \
+                and isinstance(n.targets[0].value, ast.Name) and n.targets[0].value.id == 'nfiber' \
+                and isinstance(n.targets[0].slice, ast.Compare) and len(n.targets[0].slice.ops) == 1 \
+                and isinstance(n.targets[0].slice.ops[0], ast.Lt) and isinstance(n.targets[0].slice.left, ast.Name) \
+                and n.targets[0].slice.left.id == 'mjd':
+            t = P.const_value(n.targets[0].slice.comparators[0])
+            nn = P.const_value(n.value)
+    if t is None:
+        raise P.Unrecognised('nfiber[mjd < T] = N not found')
+    short = [P.const_value(n.comparators[0]) for n in ast.walk(fn)
+             if isinstance(n, ast.Compare) and isinstance(n.left, ast.Name) and n.left.id == 'nfiber'
+             and len(n.ops) == 1 and isinstance(n.ops[0], ast.Eq)]
+    if short != [nn]:
+        raise P.Unrecognised('short-circuit constant %s vs %s' % (short, nn))
+    return t, nn
+
+
+def env_names(fn):
+    """env = "A"; try: int(run2d) except ValueError: env = "B"  ->  (A, B)"""
+    for n in ast.walk(fn):
+        if isinstance(n, ast.Try) and len(n.handlers) == 1 and isinstance(n.handlers[0].type, ast.Name) \
+                and n.handlers[0].type.id == 'ValueError':
+            calls = [c for c in ast.walk(ast.Module(body=n.body, type_ignores=[])) if isinstance(c, ast.Call)
+                     and isinstance(c.func, ast.Name) and c.func.id == 'int' and len(c.args) == 1
+                     and isinstance(c.args[0], ast.Name) and c.args[0].id == 'run2d']
+            hb = n.handlers[0].body
+            if len(calls) == 1 and len(hb) == 1 and isinstance(hb[0], ast.Assign) and isinstance(hb[0].targets[0], ast.Name) \
+                    and hb[0].targets[0].id == 'env' and isinstance(hb[0].value, ast.Constant):
+                other = hb[0].value.value
+                first = [a.value.value for a in ast.walk(fn) if isinstance(a, ast.Assign) and isinstance(a.targets[0], ast.Name)
+                         and a.targets[0].id == 'env' and isinstance(a.value, ast.Constant) and a is not hb[0]]
+                if len(first) == 1:
+                    return first[0], other
+    raise P.Unrecognised('environment variable selection in spec_path')
+
+
 def generate(repo):
     info = {'recognised': False, 'source': SRC}
     try:
@@ -188,6 +253,32 @@ def generate(repo):
                 raise P.Unrecognised('spec_append: %s' % k)
         if st['__shape_rows'] != st['nrows'] or st['__shape_cols'] != st['maxpix']:
             raise P.Unrecognised('spec_append: shape of the result')
+        # ---- number_of_fibers constants, format strings, environment variable names
+        tboss, nsdss = nfiber_constants(P.find_function(tree, 'number_of_fibers'))
+        spf = format_calls(P.find_function(tree, 'spec_path'))
+        m = [re.fullmatch(r'\{0:0(\d+)d\}', f) for f in spf]
+        if len(spf) != 1 or m[0] is None:
+            raise P.Unrecognised('spec_path format strings %s' % spf)
+        dir_width = int(m[0].group(1))
+        rsf = format_calls(P.find_function(tree, 'readspec'))
+        pm = [re.fullmatch(r'\{0:0(\d+)d\}([^{}]*)\{1:0(\d+)d\}', f) for f in rsf]
+        pm = [x for x in pm if x is not None]
+        if len(pm) != 1:
+            raise P.Unrecognised('pmjdstr format')
+        wp, sep, wm = int(pm[0].group(1)), pm[0].group(2), int(pm[0].group(3))
+        parts = {stem: name_parts(rsf, stem) for stem in ('spPlate-', 'spZbest-', 'spZall-', 'photoPlate-')}
+        env_int, env_other = env_names(P.find_function(tree, 'spec_path'))
+        defs.append('Definition gen_nfiber_boss_mjd : Z := %d.' % tboss)
+        defs.append('Definition gen_nfiber_sdss : Z := %d.' % nsdss)
+        defs.append('Definition gen_dir_plate_width : nat := %d.' % dir_width)
+        defs.append('Definition gen_pmjd_plate_width : nat := %d.' % wp)
+        defs.append('Definition gen_pmjd_mjd_width : nat := %d.' % wm)
+        defs.append('Definition gen_pmjd_sep : list Z := %s.   (* %r *)' % (blit(sep), sep))
+        for stem, nm in (('spPlate-', 'spplate'), ('spZbest-', 'spzbest'), ('spZall-', 'spzall'), ('photoPlate-', 'photoplate')):
+            defs.append('Definition gen_pre_%s : list Z := %s.   (* %r *)' % (nm, blit(parts[stem][0]), parts[stem][0]))
+            defs.append('Definition gen_suf_%s : list Z := %s.   (* %r *)' % (nm, blit(parts[stem][1]), parts[stem][1]))
+        defs.append('Definition gen_env_int_run2d : list Z := %s.   (* %r *)' % (blit(env_int), env_int))
+        defs.append('Definition gen_env_other_run2d : list Z := %s.   (* %r *)' % (blit(env_other), env_other))
         defs.append('Definition gen_key (platevec mjdvec : Z) : Z := %s.' % key)
         defs.append('Definition gen_key_plate (upmjd : Z) : Z := %s.' % unzip[0])
         defs.append('Definition gen_key_mjd (upmjd : Z) : Z := %s.' % unzip[1])
@@ -195,7 +286,6 @@ def generate(repo):
         defs.append('Definition gen_photo_row (thisfiber : Z) : Z := %s.' % list(rows['photop'])[0])
         defs.append('Definition gen_z_row (zfiber : Z) : Z := %s.' % list(rows['spz'])[0])
         defs.append('Definition gen_zbest_fiber (thisfiber : Z) : Z := %s.' % zb[0])
-        defs.append('(* not used by any theorem (known defect of the unrepaired source, see notes/C16.md); tied by correspondence *)')
         defs.append('Definition gen_znum_fiber (thisfiber nper znum : Z) : Z := %s.' % zn[0])
         defs.append('Definition gen_sa_nadd1 (pixshift : Z) : Z := %s.' % st['nadd1'])
         defs.append('Definition gen_sa_nadd2 (pixshift : Z) : Z := %s.' % st['nadd2'])
@@ -205,10 +295,10 @@ def generate(repo):
             defs.append('Definition gen_sa_block%d (nrows1 nrows2 npix1 npix2 pixshift : Z) : Z * Z * Z * Z :=\n  (%s, %s, %s, %s).'
                         % (i, b[1], b[2], b[3], b[4]))
         text = ('(* GENERATED by translate/c16.py from %s -- do not edit. *)\n'
-                'From Coq Require Import ZArith Bool.\nOpen Scope Z_scope.\n\n' % SRC) + '\n'.join(defs) + '\n'
-        info.update({'recognised': True, 'key': key, 'znum_fiber': zn[0], 'img_row': list(rows['spplate'])[0],
+                'From Coq Require Import ZArith Bool List.\nImport ListNotations.\nOpen Scope Z_scope.\n\n' % SRC) + '\n'.join(defs) + '\n'
+        info.update({'recognised': True, 'nfiber': [tboss, nsdss], 'widths': [dir_width, wp, wm], 'env': [env_int, env_other], 'key': key, 'znum_fiber': zn[0], 'img_row': list(rows['spplate'])[0],
                      'nadd1': st['nadd1'], 'nadd2': st['nadd2']})
         return text, info
-    except (P.Unrecognised, OSError, SyntaxError, IndexError, AttributeError) as e:
+    except (P.Unrecognised, OSError, SyntaxError, IndexError, AttributeError, ValueError, UnicodeError) as e:
         info['error'] = '%s: %s' % (type(e).__name__, e)
         return None, info
